@@ -19,13 +19,13 @@ LEVELS = {
     'C07': ('the completion guard is interpreted for all 24 message classes (marker present => MosCompletedMergeError with an empty effect trace; completed is True after roDelete and False after any other merge), plus who-may-call / single-writer / direct-child rules; the ElementTree write/parse round trip itself is NOT decided', '§4 C07'),
     'C08': ('classification is interpreted over every presence combination of children: only MosInvalidXML/UnknownMosFileType escape, no Element truthiness, decision reads only the message element; both dispatch tables equal the documented tables; sibling constructors agree', '§4 C08'),
     'C09': ('MosCollection.merge is interpreted (strict and non-strict) over a symbolic reader list of unknown length with messages that merge or raise MosMergeError: fold shape, fresh objects, application through +=, strict re-raise, exactly one MosMergeNonStrictWarning per failure; equality of serialisations is NOT decided', '§4 C09'),
-    'C10': ('structural premises of permutation invariance: sorted() on all three constructors, numeric message-id ordering in both classes, no re-ordering before the fold; equality of merged output is NOT decided', '§4 C10'),
-    'C11': ('the acceptance predicate of _validate is evaluated to a finite truth table (exact abstraction) and compared with the specification, incl. the exception type of every rejection and the empty list; no assert statement exists in the package (python -O)', '§4 C11'),
+    'C10': ('premises of permutation invariance: what reaches cls(...) in all three constructors (interpreted) is sorted() over all readers, numeric message-id ordering in both classes, no re-ordering before the fold; equality of merged output is NOT decided', '§4 C10, §18'),
+    'C11': ('the acceptance predicate of __init__/_validate is interpreted on exact representative reader lists (finite truth table incl. a roReplace dimension, two orders) and compared with the specification, incl. the exception type of every rejection and the empty list; no assert statement exists in the package (python -O)', '§4 C11, §18'),
     'C14': ('ENVELOPE CLAUSE ONLY: root-level writers, untouched envelope children, single serializer. The round-trip clause (well-formed output that reads back identically, special characters intact) is NOT decided by this technique', '§4 C14'),
     'C15': ('no builtin exception escapes any public read accessor for any presence combination of optional tags (exception-flow interpretation), listings are order-preserving pipelines, getters read their documented tags; value equality with the document is NOT decided', '§4 C15'),
     'C17': ('script/body pipelines are order preserving, body maps p/item correctly, and the 21-row decision table of the script filter over the finite string abstraction equals the specification; Unicode behaviour of str.strip is NOT decided', '§4 C17'),
-    'C18': ('sibling agreement of the three sources (structural + interpreted outcome sets), reader/restore pairing, reader fields, fresh objects, exhaustive S3 paging; ElementTree bytes/str equivalence and boto3 are trusted', '§4 C18'),
-    'C19': ('handler coverage of the interpreter-computed may-raise set in both per-file loops, inspect() escape-freedom, flag plumbing, exact output value, exit-status mapping; argparse and console bytes are NOT decided', '§4 C19'),
+    'C18': ('sibling agreement of the three sources (interpreted constructors and outcome sets), reader/restore pairing, reader fields, fresh objects, exhaustive S3 paging over a symbolic paginator; ElementTree bytes/str equivalence and boto3 are trusted', '§4 C18, §18'),
+    'C19': ('the CLI entry points interpreted for every argument combination: containment of the interpreter-computed may-raise set in the per-file loop, per-file report protocol, inspect() escape-freedom, flag/path plumbing, exact output value, exit-status mapping; argparse and console bytes are NOT decided', '§4 C19, §18'),
     'C20': ('provenance of every exposed id equals the MOS role table for all 41 accessors (per-ID enumeration, no blank-ID substitution), inspect() cannot raise and mentions every source; printed text / value equality is NOT decided', '§4 C20'),
     'C13': ('taint analysis on element provenance: no message-owned subtree reaches the running order without deepcopy, no merge mutates the message or captures running-order nodes; the collection re-reads each message', '§4 C13'),
 }
